@@ -292,6 +292,11 @@ def graph_program(rng, evidence=True, negation=True):
     else:
         rules.append(("rule", ("path", ("X", "Y")), [(True, ("path", ("X", "Z"))), (True, ("e", ("Z", "Y")))]))
         rules.append(("rule", ("path", ("X", "Y")), [(True, ("e", ("X", "Y")))]))
+    if rng.random() < 0.35:
+        # a second left-recursive clause of path/2 over another edge relation (the goal becomes a cycle parent twice,
+        # possibly after it already has answers)
+        prog.append(("fact", rng.choice(PROBS), ("g2", (rng.choice(CONSTS), rng.choice(CONSTS)))))
+        rules.append(("rule", ("path", ("X", "Y")), [(True, ("path", ("X", "Z"))), (True, ("g2", ("Z", "Y")))]))
     rules.append(("rule", ("loop", ()), [(True, ("e", ("X", "X")))]))
     rules.append(("rule", ("any", ()), [(True, ("e", ("X", "Y")))]))
     # mutually recursive 0-ary predicates on one cycle, each with an exit
